@@ -39,7 +39,7 @@ def worker_init():
 
 ROUTES = ["arrays", "frame_default", "frame_shift", "frame_perm_labels", "frame_string_labels", "frame_float_labels",
           "int_literals", "material_dict", "from_isotherm", "clone", "below_threshold", "negative_zero", "after_reads",
-          "branch_as_bool", "branch_as_float", "meta_order", "temperature_literal"]
+          "branch_as_bool", "branch_as_float", "meta_order", "temperature_literal", "meta_nan", "meta_tuple_export"]
 
 
 def strat_same():
@@ -189,6 +189,15 @@ def check_same(desc, ctx):
         d2["material"] = dict(reversed(list(d["material"].items())))
         a = _build(d1, p, l)
         b = _build(d2, p, l)
+    elif route == "meta_nan":
+        # a not-a-number metadata value (e.g. a missing reading) written twice: same content, two float objects
+        a = _build(dict(d, meta=dict(d.get("meta") or {}, ratio=float("nan"), parts=[1.0, float("nan")])), p, l)
+        b = _build(dict(d, meta=dict(d.get("meta") or {}, ratio=float("nan"), parts=[1.0, float("nan")])), p, l)
+    elif route == "meta_tuple_export":
+        # a tuple-valued metadata entry vs the parse of its own JSON export (where it is a list)
+        a = _build(dict(d, meta=dict(d.get("meta") or {}, dims=(1, 2))), p, l)
+        from pygaps.parsing.json import isotherm_from_json
+        b = isotherm_from_json(a.to_json())
     elif route == "temperature_literal":
         # an integral temperature given as python int / numpy integer / numpy float / text vs the float literal
         t_int = int(round(d["T"]))
